@@ -59,3 +59,29 @@ pub(crate) fn is_forest(levels: &[u16]) -> bool {
     }
     true
 }
+
+/// spec: nearest preceding layer with a smaller nesting level, none at level 0
+pub(crate) fn spec_parent(levels: &[u16], i: usize) -> Option<u32> {
+    let mut j = i;
+    while j > 0 {
+        j -= 1;
+        if levels[j] < levels[i] {
+            return Some(j as u32);
+        }
+    }
+    None
+}
+
+/// spec: visible iff own VISIBLE bit and every ancestor's VISIBLE bit
+pub(crate) fn spec_visible(levels: &[u16], flags: &[u16], i: usize) -> bool {
+    let mut cur = i;
+    loop {
+        if flags[cur] & 1 == 0 {
+            return false;
+        }
+        match spec_parent(levels, cur) {
+            None => return true,
+            Some(p) => cur = p as usize,
+        }
+    }
+}
